@@ -38,7 +38,7 @@ func dump() int {
 		for _, s := range AcceptSites(p, d) {
 			fmt.Printf("  site %s in %s\n", p.PosStr(s.Alloc.Pos()), core.FuncName(s.Fn))
 			for _, pa := range s.Paths {
-				fmt.Printf("    path %s\n", pa.Path)
+				fmt.Printf("    path %s\n", pa.Desc)
 				for _, a := range pa.Atoms {
 					fmt.Printf("      %s\n", a)
 				}
